@@ -47,7 +47,10 @@ def make_law(rng, law, interaction, l_ref="given"):
     if name == "KelvinVoigt":
         return KelvinVoigtElement(interaction, k, d, l_ref=lr, compliance_form=(form == "compliance")), info
     if name == "Maxwell":
-        return MaxwellElement(interaction, k, d, l_ref=lr, q0=np.array([float(rng.normal() * 0.3)]) if l_ref is not None else np.zeros(1)), info
+        # (initial damper elongation: also with the default reference length - 'stress-free' then means l_ref = l0 - l_d0)
+        l_d0 = float(rng.normal() * 0.3) if (l_ref is not None or rng.random() < 0.6) else 0.0
+        info["l_d0"] = l_d0
+        return MaxwellElement(interaction, k, d, l_ref=lr, q0=np.array([l_d0])), info
     raise ValueError(law)
 
 
